@@ -1068,6 +1068,178 @@ theorem C07_counterexample_ctx_none :
     simp [ConSpec, passEnv, Model.envOf, FuncSpec]
   · intro h; exact absurd h (by decide)
 
+/-! ## 8c. `sol:chk:prec`: rounding to significant digits (`round_to_digits`, utils-math.h) -/
+
+theorem pow10_pos (k : Int) : 0 < pow10 k := by
+  unfold pow10
+  split
+  · have : 0 < (10 ^ k.toNat : Nat) := Nat.pow_pos (by decide)
+    exact_mod_cast this
+  · have h : 0 < (10 ^ (-k).toNat : Nat) := Nat.pow_pos (by decide)
+    have h2 : (0 : Rat) < ((10 ^ (-k).toNat : Nat) : Rat) := by exact_mod_cast h
+    rw [Rat.div_def]
+    exact Rat.mul_pos (by decide) (Rat.inv_pos.mpr h2)
+
+/-- `std::round` is within one half of its argument -/
+theorem cround_err (q : Rat) : rabs ((cround q : Rat) - q) ≤ 1/2 := by
+  unfold cround
+  by_cases h : 0 ≤ q
+  · simp only [h, if_true]
+    have h1 := Rat.floor_le (q + 1/2)
+    have h2 := Rat.lt_floor_add_one (q + 1/2)
+    have h3 : (((q + 1/2).floor + 1 : Int) : Rat) = ((q + 1/2).floor : Rat) + 1 := by push_cast; rfl
+    rw [h3] at h2
+    unfold rabs; split <;> grind
+  · simp only [h, if_false]
+    have h1 := Rat.floor_le (-q + 1/2)
+    have h2 := Rat.lt_floor_add_one (-q + 1/2)
+    have h3 : (((-q + 1/2).floor + 1 : Int) : Rat) = ((-q + 1/2).floor : Rat) + 1 := by push_cast; rfl
+    rw [h3] at h2
+    have h4 : ((-(-q + 1/2).floor : Int) : Rat) = -((-q + 1/2).floor : Rat) := by push_cast; rfl
+    rw [h4]
+    unfold rabs; split <;> grind
+
+theorem rabs_mul_pos (x f : Rat) (hf : 0 < f) : rabs (x * f) = rabs x * f := by
+  unfold rabs
+  by_cases hx : 0 ≤ x
+  · have : 0 ≤ x * f := Rat.mul_nonneg hx (by grind)
+    simp [hx, this]
+  · have hx' : x < 0 := by grind
+    have : x * f < 0 := by
+      have := Rat.mul_lt_mul_of_pos_right hx' hf
+      simpa using this
+    have h2 : ¬ (0 ≤ x * f) := by grind
+    simp [hx, h2]; grind
+
+/-- **rounding to significant digits**: with `e = ⌈log10 |v|⌉` as found by the model's search, `roundDigits v d` is the
+multiple of `10^(e−d)` nearest to `v` (ties away from zero): it is `k·10^(e−d)` for the integer `k = round(v·10^(d−e))`, and
+differs from `v` by at most half a unit of the `d`-th significant digit -/
+theorem round_digits_spec (v : Rat) (d : Int) (hv : v ≠ 0) :
+    roundDigits v d = (cround (v * pow10 (d - ceilLog10 (rabs v))) : Rat) / pow10 (d - ceilLog10 (rabs v)) ∧
+    rabs (roundDigits v d - v) ≤ 1 / (2 * pow10 (d - ceilLog10 (rabs v))) := by
+  have hf := pow10_pos (d - ceilLog10 (rabs v))
+  have hdef : roundDigits v d = (cround (v * pow10 (d - ceilLog10 (rabs v))) : Rat) / pow10 (d - ceilLog10 (rabs v)) := by
+    unfold roundDigits; simp [hv]
+  generalize pow10 (d - ceilLog10 (rabs v)) = f at hf hdef
+  refine ⟨hdef, ?_⟩
+  rw [hdef]
+  have hne : f ≠ 0 := by grind
+  have herr := cround_err (v * f)
+  have hx : ((cround (v * f) : Rat) / f - v) * f = (cround (v * f) : Rat) - v * f := by grind
+  have h1 : rabs ((cround (v * f) : Rat) / f - v) * f ≤ 1 / 2 := by
+    rw [← rabs_mul_pos _ _ hf, hx]; exact herr
+  have h2 : (1 / (2 * f)) * f = 1 / 2 := by grind
+  exact Rat.le_of_mul_le_mul_right (by rw [h2]; exact h1) hf
+
+theorem pow10_succ (k : Int) : pow10 (k + 1) = 10 * pow10 k := by
+  unfold pow10
+  by_cases h0 : 0 ≤ k
+  · have h1 : 0 ≤ k + 1 := by omega
+    have ht : (k + 1).toNat = k.toNat + 1 := by omega
+    simp only [h0, h1, if_true, ht, Nat.pow_succ]
+    push_cast; grind
+  · by_cases h1 : k = -1
+    · subst h1; decide +kernel
+    · have h2 : ¬ (0 ≤ k + 1) := by omega
+      have ht : (-k).toNat = (-(k + 1)).toNat + 1 := by omega
+      simp only [h0, h2, if_false, ht, Nat.pow_succ]
+      have hp : (0 : Rat) < ((10 ^ (-(k + 1)).toNat : Nat) : Rat) := by
+        have : 0 < (10 ^ (-(k + 1)).toNat : Nat) := Nat.pow_pos (by decide)
+        exact_mod_cast this
+      push_cast
+      have hne : ((10 : Rat) ^ (-(k + 1)).toNat) ≠ 0 := by
+        have : ((10 ^ (-(k + 1)).toNat : Nat) : Rat) = (10 : Rat) ^ (-(k + 1)).toNat := by push_cast; rfl
+        rw [← this]; grind
+      grind
+
+theorem pow10_lt_succ (k : Int) : pow10 k < pow10 (k + 1) := by
+  rw [pow10_succ]; have := pow10_pos k; grind
+
+theorem pow10_mono_nat (k : Int) (n : Nat) : pow10 k ≤ pow10 (k + n) := by
+  induction n with
+  | zero => simp
+  | succ n ih =>
+    have : k + ((n + 1 : Nat) : Int) = (k + n) + 1 := by omega
+    rw [this]
+    exact Rat.le_trans ih (Rat.le_of_lt (pow10_lt_succ _))
+
+theorem pow10_mono {k j : Int} (h : k ≤ j) : pow10 k ≤ pow10 j := by
+  have : j = k + ((j - k).toNat : Int) := by omega
+  rw [this]; exact pow10_mono_nat k _
+
+/-- `e = ⌈log10 a⌉`: `10^(e−1) < a ≤ 10^e` -/
+def Bracket (a : Rat) (e : Int) : Prop := pow10 (e - 1) < a ∧ a ≤ pow10 e
+
+/-- the search finds the decimal exponent whenever it is within `fuel` steps of the start -/
+theorem ceilLog10Aux_bracket (a : Rat) (fuel : Nat) (e0 e : Int) (hb : Bracket a e) (hd : (e - e0).natAbs < fuel) :
+    ceilLog10Aux a fuel e0 = e := by
+  induction fuel generalizing e0 with
+  | zero => omega
+  | succ n ih =>
+    unfold ceilLog10Aux
+    by_cases h1 : a ≤ pow10 (e0 - 1)
+    · simp only [h1, if_true]
+      have : e < e0 := by
+        apply Classical.byContradiction; intro hge
+        have hm : pow10 (e0 - 1) ≤ pow10 (e - 1) := pow10_mono (by omega)
+        have := hb.1; grind
+      exact ih (e0 - 1) (by omega)
+    · simp only [h1, if_false]
+      by_cases h2 : pow10 e0 < a
+      · simp only [h2, if_true]
+        have : e0 < e := by
+          apply Classical.byContradiction; intro hge
+          have hm : pow10 e ≤ pow10 e0 := pow10_mono (by omega)
+          have := hb.2; grind
+        exact ih (e0 + 1) (by omega)
+      · simp only [h2, if_false]
+        -- e0 itself brackets a; brackets are unique
+        apply Classical.byContradiction; intro hne
+        rcases Int.lt_or_gt_of_ne hne with hlt | hgt
+        · have hm : pow10 e0 ≤ pow10 (e - 1) := pow10_mono (by omega)
+          have := hb.1; grind
+        · have hm : pow10 e ≤ pow10 (e0 - 1) := pow10_mono (by omega)
+          have := hb.2; grind
+
+/-- for every magnitude between `10^-699` and `10^699` the model's `ceilLog10` is the decimal exponent -/
+theorem ceilLog10_spec (a : Rat) (e : Int) (hb : Bracket a e) (hr : e.natAbs < 700) : ceilLog10 a = e := by
+  unfold ceilLog10
+  exact ceilLog10Aux_bracket a 700 0 e hb (by omega)
+
+
+/-- **C07_round_digits**: for `v ≠ 0` with decimal exponent `e` (`10^(e−1) < |v| ≤ 10^e`, `|e| < 700`), `roundDigits v d` — what
+`sol:chk:prec=d` applies to every component — is `v` rounded to `d` significant digits: an integer multiple of the unit of the
+`d`-th significant digit, `10^(e−d) = 1/10^(d−e)`, within half that unit of `v` (nearest, ties away from zero) -/
+theorem C07_round_digits (v : Rat) (d e : Int) (hv : v ≠ 0) (hb : Bracket (rabs v) e) (hr : e.natAbs < 700) :
+    (∃ k : Int, roundDigits v d = (k : Rat) / pow10 (d - e)) ∧ rabs (roundDigits v d - v) ≤ 1 / (2 * pow10 (d - e)) := by
+  have he := ceilLog10_spec (rabs v) e hb hr
+  have h := round_digits_spec v d hv
+  rw [he] at h
+  exact ⟨⟨_, h.1⟩, h.2⟩
+
+/-- `0.6006` to 3 significant digits is `0.601` (the input of seeded change C07-6), `0.96` to 2 digits stays `0.96`,
+`2.0004` to 3 digits is `2`, `123.4` to 2 digits is `120` -/
+theorem C07_round_digits_example :
+    roundDigits (6006/10000) 3 = 601/1000 ∧ roundDigits (96/100) 2 = 96/100 ∧ roundDigits (20004/10000) 3 = 2 ∧
+    roundDigits (1234/10) 2 = 120 ∧ Bracket (rabs (6006/10000)) 0 := by
+  refine ⟨by decide +kernel, by decide +kernel, by decide +kernel, by decide +kernel, ?_⟩
+  unfold Bracket; exact ⟨by decide +kernel, by decide +kernel⟩
+
+/-- **C07_gen_round_digits**: the model's `roundDigits` is the generated `round_to_digits<double>` (with `std::pow(10,·)`,
+`std::round`, `ceil(log10(fabs(·)))` read as `D.pow10`, `D.round`, `D.ceilLog10Abs`) -/
+theorem C07_gen_round_digits (v : Rat) (d : Int) :
+    Gen.SolCheck.roundToDigits (D.fin v) d = D.fin (roundDigits v d) := by
+  unfold Gen.SolCheck.roundToDigits roundDigits
+  by_cases hv : v = 0
+  · subst hv; simp [D.eq, D.ofInt, D.fin]
+  · have hne : ¬ (ER.fin v = ER.fin 0) := by intro h; injection h with h; exact hv h
+    have hfl : ((d : Rat) + -((ceilLog10 (rabs v) : Int) : Rat)).floor = d - ceilLog10 (rabs v) := by
+      have : ((d : Rat) + -((ceilLog10 (rabs v) : Int) : Rat)) = ((d - ceilLog10 (rabs v) : Int) : Rat) := by push_cast; grind
+      rw [this, Rat.floor_intCast]
+    have hp := pow10_pos (d - ceilLog10 (rabs v))
+    have hp0 : pow10 (d - ceilLog10 (rabs v)) ≠ 0 := by grind
+    simp [D.eq, D.ofInt, D.fin, hne, hv, D.sub, D.neg, D.add, D.ceilLog10Abs, D.pow10, D.mul, D.round, D.div, hfl, hp0]
+
 /-! ## 9. non-vacuity: concrete, non-trivial instances of the hypotheses (and of each direction of the iff-theorems) -/
 
 -- tolerance test (`C07_tolerance_test`, hypothesis `0 ≤ epsabs`): reported / within the relative tolerance / within the absolute one
